@@ -196,6 +196,8 @@ class SpecEnv:
             return self.bound[name]
         if name in self.extra:
             return self.extra[name]
+        if name == "yielded" and self.st.yielded is not None:
+            return V("ref", self.st.yielded)
         if name in self.st.env:
             v = self.st.env[name]
             if v is None:
@@ -266,6 +268,8 @@ class SpecEnv:
                     return V("sym", t=z3.Select(h.vals, self.to_val(idx)))
             if base.kind == "tuple" and isinstance(idx, int):
                 return base.d[idx]
+            if base.kind == "iter":
+                return V("sym", t=T.F_at(base.d.seq, z3.simplify(base.d.pos + self.to_int(idx))))
             if base.kind == "const":
                 return base.d[idx]
             return V("sym", t=T.F_at(self.interp.term(self.st, base), self.to_int(idx)))
@@ -427,7 +431,61 @@ def _quant(env, lam, q):
     _qcount[0] += 1
     vs = [z3.Int(f"{nm}?{_qcount[0]}") for nm in names]
     body = env.to_bool(lam(*vs))
+    pats = infer_patterns(vs, body)
+    if pats:
+        return q(vs, body, patterns=pats)
     return q(vs, body)
+
+
+def infer_patterns(vs, body):
+    """Index terms `seq_at(s, v)` / `a[v]` whose only bound variable is v (and is a direct argument) make good triggers."""
+    ids = {v.get_id(): n for n, v in enumerate(vs)}
+    cands = [[] for _ in vs]
+    seen = set()
+
+    def mentions(e, memo={}):
+        out = set()
+        todo = [e]
+        vis = set()
+        while todo:
+            x = todo.pop()
+            if x.get_id() in vis:
+                continue
+            vis.add(x.get_id())
+            if x.get_id() in ids:
+                out.add(ids[x.get_id()])
+            if z3.is_quantifier(x):
+                todo.append(x.body())
+            else:
+                todo.extend(x.children())
+        return out
+    todo = [body]
+    while todo:
+        x = todo.pop()
+        if x.get_id() in seen:
+            continue
+        seen.add(x.get_id())
+        if z3.is_quantifier(x):
+            todo.append(x.body())
+            continue
+        if z3.is_app(x):
+            k = x.decl().kind()
+            nm = x.decl().name()
+            if (k == z3.Z3_OP_SELECT or nm in ("seq_at", "key_at", "val_at")) and x.num_args() == 2 \
+                    and x.arg(1).get_id() in ids and not mentions(x.arg(0)):
+                n = ids[x.arg(1).get_id()]
+                if all(not z3.eq(x, c) for c in cands[n]):
+                    cands[n].append(x)
+            todo.extend(x.children())
+    if any(not c for c in cands):
+        return None
+    if len(vs) == 1:
+        return cands[0][:4]
+    import itertools
+    out = []
+    for combo in itertools.islice(itertools.product(*[c[:2] for c in cands]), 4):
+        out.append(z3.MultiPattern(*combo))
+    return out
 
 
 @ghost()
@@ -485,6 +543,8 @@ def len_(env, x):
                 return len(h.items) if h.items is not None else h.ln
             if isinstance(h, HDict):
                 return len(h.pairs) if h.pairs is not None else h.kn
+        if x.kind == "iter":
+            return z3.simplify(T.F_len(x.d.seq) - x.d.pos)
         return T.F_len(env.interp.term(env.st, x))
     if isinstance(x, z3.ExprRef):
         return T.F_len(x)
@@ -502,8 +562,31 @@ def res(env, f, x):
 
 
 @ghost()
-def err(env, f, x):
-    return V("sym", t=T.F_err(env.to_val(f), env.to_val(x)))
+def raised_by(env, e):
+    return V("sym", t=T.F_raised_by(env.to_val(e)))
+
+
+@ghost()
+def raised_on(env, e):
+    return V("sym", t=T.F_raised_on(env.to_val(e)))
+
+
+@ghost()
+def errcls(env, f, x):
+    return ClsLike(t=T.F_errcls(env.to_val(f), env.to_val(x)))
+
+
+@ghost()
+def errval(env, f, x):
+    return V("sym", t=T.F_errval(env.to_val(f), env.to_val(x)))
+
+
+@ghost()
+def is_err(env, e, f, x):
+    """e is the exception f raised on x"""
+    et, ft, xt = env.to_val(e), env.to_val(f), env.to_val(x)
+    return z3.And(T.F_raised_by(et) == ft, T.F_raised_on(et) == xt, T.F_cls(et) == T.F_errcls(ft, xt),
+                  T.attr_fn("input_value")(et) == T.F_errval(ft, xt))
 
 
 @ghost()
@@ -528,6 +611,59 @@ def contains(env, coll, x):
 @ghost()
 def construct(env, factory, seq):
     return V("sym", t=T.F_mk(env.to_val(factory), env.to_val(seq)))
+
+
+@ghost()
+def built_from(env, x):
+    return V("sym", t=T.F_mkseq(env.to_val(x)))
+
+
+@ghost()
+def trail_top_is(env, e, k):
+    """the outermost trail element of e is k and exactly one element was added to e's trail by this activation"""
+    st = env.st
+    env.interp.ensure_trails(st)
+    et = env.to_val(e)
+    old_len = z3.Select(env.interp.trail0[0], et)
+    # quantifier-free: the whole trail is the entry trail with k stored on top
+    return z3.And(z3.Select(st.trail_len, et) == old_len + 1,
+                  z3.Select(st.trail_arr, et) == z3.Store(z3.Select(env.interp.trail0[1], et), old_len, env.to_val(k)))
+
+
+def trail_prefix_kept(env, et, old_len):
+    st = env.st
+    q = z3.Int("q!")
+    return z3.ForAll([q], z3.Implies(z3.And(q >= 0, q < old_len),
+                                     z3.Select(z3.Select(st.trail_arr, et), q) ==
+                                     z3.Select(z3.Select(env.interp.trail0[1], et), q)))
+
+
+@ghost()
+def top_index(env, e):
+    """the integer this activation put on top of e's trail"""
+    st = env.st
+    env.interp.ensure_trails(st)
+    et = env.to_val(e)
+    return T.F_ival(z3.Select(z3.Select(st.trail_arr, et), z3.Select(env.interp.trail0[0], et)))
+
+
+@ghost()
+def elem_error(env, e, f, seq, bound):
+    """e is the error f raised on the element of seq that sits at e's own top trail index j (0 <= j < bound), and this
+    activation put exactly j on e's trail.  (Skolemised form of `exists j`: the index is read off the trail.)"""
+    j = top_index(env, e)
+    el = env.index(seq, j)
+    return z3.And(j >= 0, j < env.to_int(bound), z3.Not(ok(env, f, el)), is_err(env, e, f, el),
+                  trail_top_is(env, e, j))
+
+
+@ghost()
+def trail_unchanged(env, e):
+    st = env.st
+    env.interp.ensure_trails(st)
+    et = env.to_val(e)
+    return z3.And(z3.Select(st.trail_len, et) == z3.Select(env.interp.trail0[0], et),
+                  z3.Select(st.trail_arr, et) == z3.Select(env.interp.trail0[1], et))
 
 
 @ghost()
